@@ -2,12 +2,21 @@
    Statements only; proofs in Proofs/StrategyProofs.v. *)
 From Helios Require Import Base.Prelude Base.Wrap Model.Hash Model.Strategy Proofs.StrategyProofs.
 
-(* round robin: the t-th pick after counter value c returns the backend at index (c+t) mod n ... *)
+(* round robin with every backend eligible: the pick after counter value c returns the backend at
+   index (c+1) mod n and advances the counter by one ... *)
 Theorem C05_rr_index :
-  forall pool c, pool <> [] -> 0 <= c -> c + 1 < 18446744073709551616 ->
+  forall pool c, all_flag pool -> pool <> [] -> 0 <= c -> c + 1 < 18446744073709551616 ->
     rr_pick pool c = (nthZ pool ((c + 1) mod zlen pool), c + 1).
 Proof. exact rr_pick_index. Qed.
 Print Assumptions C05_rr_index.
+
+(* with ineligible members the scan skips them and returns an eligible backend whenever one exists *)
+Theorem C05_rr_eligible :
+  forall pool c, 0 <= c -> c + zlen pool < 18446744073709551616 ->
+    (exists b, In b pool /\ bflag b = true) ->
+    exists b c', rr_pick pool c = (Some b, c') /\ In b pool /\ bflag b = true.
+Proof. exact rr_finds_flagged. Qed.
+Print Assumptions C05_rr_eligible.
 
 (* ... and among any n*m consecutive counter values every index 0..n-1 occurs exactly m times
    (m = 1: exactly one of every n consecutive requests).  The counter is advanced by one atomic
@@ -69,11 +78,11 @@ Theorem C05_wrr_stale_removal_witness :
 Proof. vm_compute. repeat split; reflexivity. Qed.
 Print Assumptions C05_wrr_stale_removal_witness.
 
-(* least connections: the pick has a minimal in-flight count among ALL pooled backends, hence among
-   the eligible ones whenever it is itself eligible (which dispatch requires, C02) *)
+(* least connections: the pick is eligible and has a minimal in-flight count among the eligible backends *)
 Theorem C05_lc_min :
-  forall pool, pool <> [] -> (forall x, In x pool -> bactive x < 2147483647) ->
-    exists b, lc_pick pool = Some b /\ In b pool /\ forall x, In x pool -> bactive b <= bactive x.
+  forall pool, (exists b, In b pool /\ bflag b = true) -> (forall x, In x pool -> bactive x < 2147483647) ->
+    exists b, lc_pick pool = Some b /\ In b pool /\ bflag b = true
+              /\ forall x, In x pool -> bflag x = true -> bactive b <= bactive x.
 Proof. exact lc_min. Qed.
 Print Assumptions C05_lc_min.
 
